@@ -23,6 +23,7 @@ ASSUMPTIONS = ["as C01; equality of environments is the property's own (duplicat
                "unset = empty); the round-trip clause is evaluated when no product of the request's closure is set up "
                "beforehand"]
 PID = "C02"
+MIRRORS = L.mirrors(PID)
 
 
 def gen_roundtrip(rng):
